@@ -65,7 +65,7 @@ def packet_damage(rng, stream):
             if len(pl) - o - 4 > 0 and struct.unpack_from('<I', pl, o)[0] == len(pl) - o - 4:
                 k = rng.randrange(0, len(pl) - o - 4); return pl[:o] + struct.pack('<I', k) + pl[o + 4:o + 4 + k]
         return pl
-    mode = rng.choice(['cut-type', 'cut-some', 'grow-some', 'garble-type', 'cut-type-fixed', 'cut-inner-type', 'cut-inner-type', 'cut-inner-some', 'cut-inner-all', 'cut-sized-all', 'cut-sized-all'])
+    mode = rng.choice(['cut-type', 'cut-some', 'grow-some', 'garble-type', 'cut-type-fixed', 'cut-inner-type', 'cut-inner-type', 'cut-inner-some', 'cut-inner-all', 'cut-sized-all', 'cut-sized-all', 'ff-inner', 'ff-inner'])
     sized = lambda pl: len(pl) > 9 and pl[4] in (0, 1) and pl[5] == (len(pl) - 9) & 0xff
     t = rng.choice(types)
     # prefer the types with variable-length bit/typed payloads
@@ -81,6 +81,9 @@ def packet_damage(rng, stream):
         elif mode == 'cut-inner-all' and rng.random() < 0.3: f[2] = cut_inner(pl)
         elif mode == 'cut-sized-all' and sized(pl): f[2] = cut_inner(pl)
         elif mode == 'cut-some' and rng.random() < 0.02 and pl: f[2] = pl[:rng.randrange(0, len(pl))]
+        elif mode == 'ff-inner' and f[0] in (0x7, 0x8) and len(pl) >= 12 and rng.random() < 0.4:
+            # the value / argument bytes of an update or call replaced by 0xff bytes (a count / length escape with nothing behind it), length prefix fixed up
+            k = rng.choice([1, 2, 3, 4, 4, 5, 8]); f[2] = pl[:8] + struct.pack('<I', k) + b'\xff' * k
         elif mode == 'grow-some' and rng.random() < 0.02: f[2] = pl + bytes(rng.randrange(256) for _ in range(rng.choice([1, 3, 200])))
         elif mode == 'garble-type' and f[0] == t and len(pl) > 8:
             h = rng.randrange(8, len(pl)); f[2] = pl[:h] + bytes(rng.randrange(256) for _ in range(len(pl) - h))
@@ -181,6 +184,7 @@ def run(ctx):
                                    problem=base['outcome'], file=keep, wall_s=base['wall'], limit_s=120, how='python tools/c15_worker.py <file>'))
                 continue
             limit = max(20.0, base['wall'] * 10 + 10); rss_limit = max(base['maxrss_kb'] * 4, 600000)
+            if synthetic: limit = max(8.0, base['wall'] * 10 + 3); rss_limit = max(base['maxrss_kb'] * 4, 200000)      # a few kB of input: seconds and 100s of MB are not proportional
             he = header_end(data)
             try: raw = fast_source(src)
             except Exception: raw = None
